@@ -175,6 +175,8 @@ func (p *Prog) CmpRel(cond ssa.Value) (x, y ssa.Value, onTrue, onFalse Rel, ok b
 	return x, y, onTrue, onFalse, true
 }
 
+var zeroConst ssa.Value = ssa.NewConst(constant.MakeInt64(0), types.Typ[types.Int])
+
 // cmpGuard builds a guard whose pass edges imply  X req Y  for operands recognised by
 // isX / isY (in either order).
 func (p *Prog) cmpGuard(name string, isX, isY func(ssa.Value) bool, req Rel) *GuardSpec {
@@ -182,6 +184,10 @@ func (p *Prog) cmpGuard(name string, isX, isY func(ssa.Value) bool, req Rel) *Gu
 		Name: name,
 		Local: func(fn *ssa.Function, cond ssa.Value) (bool, bool) {
 			x, y, onT, onF, ok := p.CmpRel(cond)
+			if ok && x != nil && y == nil {
+				// sign test on a plain value (v.IsPositive(), !v.IsZero(), ...): a comparison with zero
+				y = zeroConst
+			}
 			if !ok || x == nil || y == nil {
 				return false, false
 			}
